@@ -1,3 +1,497 @@
 import Restic.Model.AssocSet
+/-!
+# C48 — Blob sets report each member once
+
+Statement (properties.jsonl): the blob sets used by prune, check, copy and diff report a length
+equal to the number of distinct members and enumerate each member exactly once, whatever the
+repository index contains (including the same blob stored in several packs).
+
+Theorems about `Restic.Model.AssocSet` (transcription of `associated_data.go` **with** the fix
+`fix/C48-associated-set-once`), for every master index (any number of entries per blob, merged and
+unmerged indexes), every set state reachable by `Set/Insert/Delete/Intersect/Sub`, also when the
+master index grows while the set is in use:
+
+* `keys_nodup`, `mem_all_iff`, `len_eq_card`: enumeration yields every member exactly once and
+  `Len` counts the members;
+* `get_set`, `get_delete`, `get_new`, `get_intersect`, `get_subtract`: the structure refines a
+  finite map `Handle → T`;
+* `history_refines` / `rep_spec`: after any op sequence the executable statement `specAll/specKeys/
+  specLen/specGet` holds;
+* `old_all_reports_twice`: the original iteration violates the property (negation witness).
+-/
 namespace Restic.Props.C48
+open Restic.Model.IndexMap (ID Val firstPos)
+open Restic.Model.Index Restic.Model.AssocSet
+
+/-! ### `firstIndex` (abstract level, see C56) -/
+
+theorem firstPos_cases (m : List Val) (id : ID) :
+    (firstPos m id = -1 ∧ ∀ v, v ∈ m → v.id ≠ id) ∨
+    (∃ i, firstPos m id = ((i + 1 : Nat) : Int) ∧ ∃ h : i < m.length, m[i].id = id ∧
+      ∀ j (hj : j < i), m[j].id ≠ id) := by
+  unfold firstPos
+  cases hf : m.findIdx? (fun v => v.id == id) with
+  | none =>
+    left
+    rw [List.findIdx?_eq_none_iff] at hf
+    exact ⟨rfl, fun v hv => by simpa using hf v hv⟩
+  | some i =>
+    right
+    rw [List.findIdx?_eq_some_iff_getElem] at hf
+    obtain ⟨h, h1, h2⟩ := hf
+    exact ⟨i, by simp, h, by simpa using h1, fun j hj => by simpa using h2 j hj⟩
+
+theorem firstPos_range (m : List Val) (id : ID) :
+    firstPos m id = -1 ∨ ∃ i, 1 ≤ i ∧ i ≤ m.length ∧ firstPos m id = (i : Int) := by
+  rcases firstPos_cases m id with ⟨h, _⟩ | ⟨i, h, hl, _⟩
+  · exact Or.inl h
+  · exact Or.inr ⟨i + 1, by omega, by omega, h⟩
+
+/-- two ids with the same (valid) first position are equal: a slot belongs to one handle only -/
+theorem firstPos_inj (m : List Val) (a b : ID) (h : firstPos m a = firstPos m b) (hv : firstPos m a ≠ -1) : a = b := by
+  rcases firstPos_cases m a with ⟨ha, _⟩ | ⟨i, hi, hl, hia, _⟩
+  · exact absurd ha hv
+  · rcases firstPos_cases m b with ⟨hb, _⟩ | ⟨j, hj, hl', hjb, _⟩
+    · rw [h] at hv; exact absurd hb hv
+    · rw [hi, hj] at h
+      have : i = j := by omega
+      subst this
+      rw [← hia, ← hjb]
+
+/-- appending entries never changes an existing first position; a new one lies behind the old end -/
+theorem firstPos_append (m s : List Val) (id : ID) :
+    (firstPos m id ≠ -1 → firstPos (m ++ s) id = firstPos m id) ∧
+    (firstPos m id = -1 → firstPos (m ++ s) id = -1 ∨ (m.length : Int) < firstPos (m ++ s) id) := by
+  unfold firstPos
+  rw [List.findIdx?_append]
+  cases hf : m.findIdx? (fun v => v.id == id) with
+  | some i => simp; omega
+  | none =>
+    cases hs : s.findIdx? (fun v => v.id == id) with
+    | none => simp
+    | some j => simp; omega
+
+/-! ### `firstValues`: every handle of the main index once, with its blobIndex -/
+
+theorem firstValuesFrom_sound (t : BlobType) (m : IMap) : ∀ (vs : List Val) (pos : Nat) (x : Nat × Handle),
+    x ∈ firstValuesFrom t m pos vs → pos < x.1 ∧ firstPos m x.2.id = (x.1 : Int) ∧ x.2.type = t
+  | [], _, _, h => by simp [firstValuesFrom] at h
+  | v :: vs, pos, x, h => by
+    simp only [firstValuesFrom] at h
+    split at h
+    · rename_i hc
+      rcases List.mem_cons.mp h with rfl | h
+      · exact ⟨by simp, by simpa using hc, rfl⟩
+      · have := firstValuesFrom_sound t m vs (pos + 1) x h
+        exact ⟨by omega, this.2⟩
+    · have := firstValuesFrom_sound t m vs (pos + 1) x h
+      exact ⟨by omega, this.2⟩
+
+theorem firstValuesFrom_nodup (t : BlobType) (m : IMap) : ∀ (vs : List Val) (pos : Nat),
+    ((firstValuesFrom t m pos vs).map (·.2)).Nodup
+  | [], _ => by simp [firstValuesFrom]
+  | v :: vs, pos => by
+    simp only [firstValuesFrom]
+    split
+    · rename_i hc
+      rw [List.map_cons, List.nodup_cons]
+      refine ⟨?_, firstValuesFrom_nodup t m vs (pos + 1)⟩
+      intro hm
+      obtain ⟨x, hx, hx2⟩ := List.mem_map.mp hm
+      obtain ⟨h1, h2, _⟩ := firstValuesFrom_sound t m vs (pos + 1) x hx
+      have hc' : firstPos m v.id = ((pos + 1 : Nat) : Int) := by simpa using hc
+      rw [hx2] at h2
+      simp only at h2
+      rw [hc'] at h2
+      omega
+    · exact firstValuesFrom_nodup t m vs (pos + 1)
+
+theorem firstValuesFrom_complete (t : BlobType) (m : IMap) : ∀ (vs pre : List Val), m = pre ++ vs →
+    ∀ (id : ID) (i : Nat), firstPos m id = (i : Int) → pre.length < i →
+      (i, (⟨t, id⟩ : Handle)) ∈ firstValuesFrom t m pre.length vs
+  | [], pre, hm, id, i, hf, hi => by
+    rcases firstPos_range m id with h | ⟨j, _, hj, h⟩
+    · rw [h] at hf; omega
+    · rw [h] at hf
+      have : j = i := by omega
+      subst this
+      rw [hm] at hj; simp at hj; omega
+  | v :: vs, pre, hm, id, i, hf, hi => by
+    have hm' : m = (pre ++ [v]) ++ vs := by simp [hm]
+    have hlen : (pre ++ [v]).length = pre.length + 1 := by simp
+    simp only [firstValuesFrom]
+    by_cases hi1 : i = pre.length + 1
+    · -- this is the entry at position i
+      subst hi1
+      rcases firstPos_cases m id with ⟨h, _⟩ | ⟨j, hj, hl, hjid, _⟩
+      · rw [h] at hf; omega
+      · rw [hj] at hf
+        have hjp : j = pre.length := by omega
+        have hv : m[j] = v := by
+          subst hjp
+          simp [hm]
+        rw [hv] at hjid
+        have hc' : firstPos m id = (pre.length : Int) + 1 := by rw [hj]; omega
+        simp [hjid, hc']
+    · have ih := firstValuesFrom_complete t m vs (pre ++ [v]) hm' id i hf (by rw [hlen]; omega)
+      rw [hlen] at ih
+      split
+      · exact List.mem_cons_of_mem _ ih
+      · exact ih
+
+theorem blobIndex_cases (mi : MasterIndex) (h : Handle) :
+    blobIndex mi h = -1 ∨ ∃ i, 1 ≤ i ∧ i ≤ (mi.first.byType h.type).length ∧ blobIndex mi h = (i : Int) :=
+  firstPos_range _ _
+
+theorem mem_firstValues (mi : MasterIndex) (i : Nat) (h : Handle) :
+    (i, h) ∈ firstValues mi ↔ blobIndex mi h = (i : Int) := by
+  unfold firstValues firstValuesOf blobIndex
+  rw [List.mem_append]
+  constructor
+  · rintro (hm | hm)
+    · obtain ⟨_, h2, h3⟩ := firstValuesFrom_sound _ _ _ _ _ hm
+      simp only at h2 h3
+      rw [h3]; exact h2
+    · obtain ⟨_, h2, h3⟩ := firstValuesFrom_sound _ _ _ _ _ hm
+      simp only at h2 h3
+      rw [h3]; exact h2
+  · intro hf
+    have hi : 0 < i := by
+      rcases firstPos_range (mi.first.byType h.type) h.id with h1 | ⟨j, hj, _, h1⟩
+      · rw [h1] at hf; omega
+      · rw [h1] at hf; omega
+    cases h with
+    | mk t id =>
+      cases t with
+      | data => exact Or.inl (firstValuesFrom_complete .data mi.first.data mi.first.data [] rfl id i hf hi)
+      | tree => exact Or.inr (firstValuesFrom_complete .tree mi.first.tree mi.first.tree [] rfl id i hf hi)
+
+theorem firstValues_nodup (mi : MasterIndex) : ((firstValues mi).map (·.2)).Nodup := by
+  unfold firstValues firstValuesOf
+  rw [List.map_append, List.nodup_append]
+  refine ⟨firstValuesFrom_nodup _ _ _ _, firstValuesFrom_nodup _ _ _ _, ?_⟩
+  intro a ha b hb hab
+  obtain ⟨x, hx, rfl⟩ := List.mem_map.mp ha
+  obtain ⟨y, hy, rfl⟩ := List.mem_map.mp hb
+  have h1 := (firstValuesFrom_sound _ _ _ _ _ hx).2.2
+  have h2 := (firstValuesFrom_sound _ _ _ _ _ hy).2.2
+  rw [hab] at h1; rw [h1] at h2; cases h2
+
+/-! ### the overflow map (association list with unique keys) -/
+
+theorem ovGet_eq_some_iff (o : List (Handle × Nat)) (nd : (o.map (·.1)).Nodup) (h : Handle) (v : Nat) :
+    ovGet o h = some v ↔ (h, v) ∈ o := by
+  induction o with
+  | nil => simp [ovGet]
+  | cons p o ih =>
+    rw [List.map_cons, List.nodup_cons] at nd
+    simp only [ovGet, List.find?_cons] at ih ⊢
+    by_cases hp : p.1 = h
+    · have : (p.1 == h) = true := by simp [hp]
+      simp only [this, Option.map_some, Option.some.injEq, List.mem_cons]
+      constructor
+      · intro hv; left; rw [← hv, ← hp]
+      · rintro (he | hm)
+        · rw [← he]
+        · exfalso; apply nd.1; rw [hp]; exact List.mem_map_of_mem (f := (·.1)) hm
+    · have : (p.1 == h) = false := by simp [hp]
+      simp only [this, List.mem_cons]
+      rw [ih nd.2]
+      constructor
+      · exact Or.inr
+      · rintro (he | hm)
+        · exfalso; apply hp; rw [← he]
+        · exact hm
+
+theorem ovGet_isSome_iff (o : List (Handle × Nat)) (h : Handle) : (ovGet o h).isSome ↔ h ∈ o.map (·.1) := by
+  induction o with
+  | nil => simp [ovGet]
+  | cons p o ih =>
+    simp only [ovGet, List.find?_cons] at ih ⊢
+    by_cases hp : p.1 = h
+    · simp [hp]
+    · have : (p.1 == h) = false := by simp [hp]
+      simp only [this, List.map_cons, List.mem_cons]
+      rw [ih]
+      constructor
+      · exact Or.inr
+      · rintro (he | hm)
+        · exact absurd he.symm hp
+        · exact hm
+
+theorem ovGet_map_set (o : List (Handle × Nat)) (h h' : Handle) (v : Nat) :
+    ovGet (o.map fun p => if p.1 == h then (h, v) else p) h' =
+      if h' = h then (ovGet o h).map (fun _ => v) else ovGet o h' := by
+  induction o with
+  | nil => simp [ovGet]
+  | cons p o ih =>
+    simp only [ovGet, List.map_cons, List.find?_cons] at ih ⊢
+    by_cases hp : p.1 = h
+    · have e1 : (p.1 == h) = true := by simp [hp]
+      simp only [e1, if_true]
+      by_cases hh : h' = h
+      · subst hh; simp
+      · have e2 : (h == h') = false := by simp; exact fun e => hh e.symm
+        have e3 : (p.1 == h') = false := by rw [hp]; exact e2
+        simp only [e2, e3, hh, if_false]
+        simpa [hh] using ih
+    · have e1 : (p.1 == h) = false := by simp [hp]
+      simp only [e1, Bool.false_eq_true, if_false]
+      by_cases hh : h' = h
+      · subst hh
+        simp only [e1, if_true]
+        simpa using ih
+      · simp only [hh, if_false]
+        by_cases hp' : p.1 = h'
+        · simp [hp']
+        · have e2 : (p.1 == h') = false := by simp [hp']
+          simp only [e2]
+          simpa [hh] using ih
+
+theorem ovGet_append_single (o : List (Handle × Nat)) (h h' : Handle) (v : Nat) :
+    ovGet (o ++ [(h, v)]) h' = (ovGet o h').or (if h' = h then some v else none) := by
+  induction o with
+  | nil =>
+    simp only [ovGet, List.nil_append, List.find?_cons, List.find?_nil]
+    by_cases hh : h' = h
+    · subst hh; simp
+    · have : (h == h') = false := by simp; exact fun e => hh e.symm
+      simp [this, hh]
+  | cons p o ih =>
+    simp only [ovGet, List.cons_append, List.find?_cons] at ih ⊢
+    by_cases hp : p.1 = h'
+    · simp [hp]
+    · have : (p.1 == h') = false := by simp [hp]
+      simp only [this]
+      exact ih
+
+theorem ovGet_ovSet (o : List (Handle × Nat)) (h h' : Handle) (v : Nat) :
+    ovGet (ovSet o h v) h' = if h' = h then some v else ovGet o h' := by
+  unfold ovSet
+  split
+  · rename_i hany
+    have hs : (ovGet o h).isSome := by
+      rw [ovGet_isSome_iff]
+      simp only [List.any_eq_true, beq_iff_eq] at hany
+      obtain ⟨p, hp, hph⟩ := hany
+      exact List.mem_map.mpr ⟨p, hp, hph⟩
+    rw [ovGet_map_set]
+    obtain ⟨x, hx⟩ := Option.isSome_iff_exists.mp hs
+    simp [hx]
+  · rename_i hany
+    have hn : ovGet o h = none := by
+      rw [← Option.not_isSome_iff_eq_none, ovGet_isSome_iff]
+      intro hm
+      obtain ⟨p, hp, hph⟩ := List.mem_map.mp hm
+      apply hany
+      simp only [List.any_eq_true, beq_iff_eq]
+      exact ⟨p, hp, hph⟩
+    rw [ovGet_append_single]
+    by_cases hh : h' = h
+    · subst hh; simp [hn]
+    · simp [hh]
+
+theorem ovSet_nodup (o : List (Handle × Nat)) (h : Handle) (v : Nat) (nd : (o.map (·.1)).Nodup) :
+    ((ovSet o h v).map (·.1)).Nodup := by
+  unfold ovSet
+  split
+  · have : (o.map fun p => if p.1 == h then (h, v) else p).map (·.1) = o.map (·.1) := by
+      rw [List.map_map]
+      apply List.map_congr_left
+      intro p _
+      simp only [Function.comp]
+      split
+      · rename_i hp; simp at hp; simp [hp]
+      · rfl
+    rw [this]; exact nd
+  · rename_i hany
+    rw [List.map_append, List.nodup_append]
+    refine ⟨nd, by simp, ?_⟩
+    intro a ha b hb hab
+    simp at hb
+    subst hb; subst hab
+    apply hany
+    obtain ⟨p, hp, hph⟩ := List.mem_map.mp ha
+    simp only [List.any_eq_true, beq_iff_eq]
+    exact ⟨p, hp, hph⟩
+
+theorem ovGet_ovDel (o : List (Handle × Nat)) (h h' : Handle) :
+    ovGet (ovDel o h) h' = if h' = h then none else ovGet o h' := by
+  induction o with
+  | nil => simp [ovGet, ovDel]
+  | cons p o ih =>
+    simp only [ovGet, ovDel, List.filter_cons] at ih ⊢
+    by_cases hp : p.1 = h
+    · have e1 : (p.1 == h) = true := by simp [hp]
+      simp only [e1, Bool.not_true, Bool.false_eq_true, if_false]
+      rw [ih]
+      by_cases hh : h' = h
+      · simp [hh]
+      · have : (p.1 == h') = false := by rw [hp]; simp; exact fun e => hh e.symm
+        simp [hh, List.find?_cons, this]
+    · have e1 : (p.1 == h) = false := by simp [hp]
+      simp only [e1, Bool.not_false, if_true, List.find?_cons]
+      by_cases hp' : p.1 = h'
+      · have : h' ≠ h := fun e => hp (hp'.trans e)
+        simp [hp', this]
+      · have : (p.1 == h') = false := by simp [hp']
+        simp only [this]
+        exact ih
+
+theorem ovDel_nodup (o : List (Handle × Nat)) (h : Handle) (nd : (o.map (·.1)).Nodup) :
+    ((ovDel o h).map (·.1)).Nodup :=
+  nd.sublist ((List.filter_sublist).map _)
+
+/-! ### representation invariant and the enumeration theorems -/
+
+structure WF (a : ASet) : Prop where
+  lenD : a.data.value.length = a.data.isSet.length
+  lenT : a.tree.value.length = a.tree.isSet.length
+  ovNodup : (a.overflow.map (·.1)).Nodup
+
+theorem WF.len {a : ASet} (wf : WF a) (t : BlobType) : (a.sub t).value.length = (a.sub t).isSet.length := by
+  cases t
+  · exact wf.lenD
+  · exact wf.lenT
+
+theorem new_wf (mi : MasterIndex) : WF (ASet.new mi) := by
+  refine ⟨by simp [ASet.new], by simp [ASet.new], by simp [ASet.new]⟩
+
+/-- what `Get` answers for a handle that is not in the overflow map -/
+def slotGet (mi : MasterIndex) (a : ASet) (h : Handle) : Option Nat :=
+  let idx := blobIndex mi h
+  let bt := a.sub h.type
+  if idx ≥ bt.value.length ∨ idx = -1 then none
+  else if bt.isSet.getD idx.toNat false then some (bt.value.getD idx.toNat 0) else none
+
+theorem get_eq (mi : MasterIndex) (a : ASet) (h : Handle) :
+    a.get mi h = match ovGet a.overflow h with
+      | some v => some v
+      | none => slotGet mi a h := rfl
+
+theorem slotGet_eq_some_iff (mi : MasterIndex) (a : ASet) (wf : WF a) (h : Handle) (v : Nat) :
+    slotGet mi a h = some v ↔ ∃ i : Nat, blobIndex mi h = (i : Int) ∧ i < (a.sub h.type).isSet.length ∧
+      (a.sub h.type).isSet.getD i false = true ∧ v = (a.sub h.type).value.getD i 0 := by
+  unfold slotGet
+  have hl := wf.len h.type
+  rcases blobIndex_cases mi h with hb | ⟨i, hi1, _, hb⟩
+  · simp only [hb, or_true, if_true]
+    constructor
+    · intro h'; cases h'
+    · rintro ⟨i, hi, _⟩; omega
+  · rw [hb]
+    simp only [Int.toNat_natCast]
+    constructor
+    · intro h'
+      split at h'
+      · cases h'
+      · rename_i hc
+        split at h'
+        · rename_i hs
+          cases h'
+          exact ⟨i, rfl, by omega, hs, rfl⟩
+        · cases h'
+    · rintro ⟨j, hj, hjl, hs, hv⟩
+      have : j = i := by omega
+      subst this
+      have hc : ¬ (((j : Nat) : Int) ≥ ((a.sub h.type).value.length : Int) ∨ ((j : Nat) : Int) = -1) := by omega
+      simp only [hc, if_false, hs, if_true, hv]
+
+/-- **each member is enumerated with its value, and nothing else is** -/
+theorem mem_all_iff (mi : MasterIndex) (a : ASet) (wf : WF a) (h : Handle) (v : Nat) :
+    (h, v) ∈ a.all mi ↔ a.get mi h = some v := by
+  rw [get_eq]
+  unfold ASet.all
+  rw [List.mem_append, List.mem_filterMap]
+  cases ho : ovGet a.overflow h with
+  | some v' =>
+    simp only [Option.some.injEq]
+    rw [← ovGet_eq_some_iff _ wf.ovNodup, ho]
+    constructor
+    · rintro (h1 | ⟨⟨i, h'⟩, _, h2⟩)
+      · exact Option.some.inj h1
+      · simp only at h2
+        split at h2
+        · cases h2
+        · rename_i hn
+          split at h2
+          · cases h2; simp [ho] at hn
+          · cases h2
+    · intro e; left; rw [e]
+  | none =>
+    simp only
+    rw [slotGet_eq_some_iff mi a wf]
+    constructor
+    · rintro (h1 | ⟨⟨i, h'⟩, hm, h2⟩)
+      · rw [← ovGet_eq_some_iff _ wf.ovNodup, ho] at h1; cases h1
+      · simp only at h2
+        split at h2
+        · cases h2
+        · split at h2
+          · rename_i hc
+            cases h2
+            exact ⟨i, (mem_firstValues mi i h).mp hm, hc.1, hc.2, rfl⟩
+          · cases h2
+    · rintro ⟨i, hb, hl, hs, hv⟩
+      right
+      refine ⟨(i, h), (mem_firstValues mi i h).mpr hb, ?_⟩
+      simp only [ho, Option.isSome_none, Bool.false_eq_true, if_false, hl, hs, and_self, if_true, hv]
+
+/-- **Keys / All enumerate no handle twice** -/
+theorem keys_nodup (mi : MasterIndex) (a : ASet) (wf : WF a) : (a.keys mi).Nodup := by
+  unfold ASet.keys ASet.all
+  rw [List.map_append, List.nodup_append]
+  refine ⟨wf.ovNodup, ?_, ?_⟩
+  · -- the array part: a sub-list of the (duplicate free) handles of the main index
+    have hsub : ((firstValues mi).filterMap fun (x : Nat × Handle) =>
+        if (ovGet a.overflow x.2).isSome then none
+        else if x.1 < (a.sub x.2.type).isSet.length ∧ (a.sub x.2.type).isSet.getD x.1 false = true then
+          some (x.2, (a.sub x.2.type).value.getD x.1 0) else none).map (·.1) =
+        ((firstValues mi).filter fun (x : Nat × Handle) =>
+          !(ovGet a.overflow x.2).isSome &&
+            decide (x.1 < (a.sub x.2.type).isSet.length ∧ (a.sub x.2.type).isSet.getD x.1 false = true)).map (·.2) := by
+      induction firstValues mi with
+      | nil => rfl
+      | cons x l ih =>
+        simp only [List.filterMap_cons, List.filter_cons]
+        by_cases h1 : (ovGet a.overflow x.2).isSome
+        · simp only [h1, if_true, Bool.not_true, Bool.false_and, Bool.false_eq_true, if_false]; exact ih
+        · simp only [h1, Bool.false_eq_true, if_false, Bool.not_false, Bool.true_and]
+          by_cases h2 : x.1 < (a.sub x.2.type).isSet.length ∧ (a.sub x.2.type).isSet.getD x.1 false = true
+          · simp only [h2, and_self, if_true, decide_true, List.map_cons, ih]
+          · simp only [h2, if_false, decide_false, Bool.false_eq_true]; exact ih
+    rw [hsub]
+    exact (firstValues_nodup mi).sublist ((List.filter_sublist).map _)
+  · intro x hx y hy hxy
+    subst hxy
+    obtain ⟨⟨h', v⟩, hm, rfl⟩ := List.mem_map.mp hy
+    rw [List.mem_filterMap] at hm
+    obtain ⟨⟨i, h''⟩, _, h2⟩ := hm
+    simp only at h2
+    split at h2
+    · cases h2
+    · rename_i hn
+      split at h2
+      · cases h2
+        exact hn ((ovGet_isSome_iff _ _).mpr hx)
+      · cases h2
+
+theorem all_nodup (mi : MasterIndex) (a : ASet) (wf : WF a) : (a.all mi).Nodup :=
+  List.Pairwise.of_map (fun x : Handle × Nat => x.1) (fun _ _ h e => h (by rw [e])) (keys_nodup mi a wf)
+
+/-- a handle is enumerated by `Keys` iff it is a member (`Has`) -/
+theorem mem_keys_iff (mi : MasterIndex) (a : ASet) (wf : WF a) (h : Handle) :
+    h ∈ a.keys mi ↔ a.has mi h = true := by
+  unfold ASet.keys ASet.has
+  rw [List.mem_map, Option.isSome_iff_exists]
+  constructor
+  · rintro ⟨⟨h', v⟩, hm, rfl⟩; exact ⟨v, (mem_all_iff mi a wf h' v).mp hm⟩
+  · rintro ⟨v, hv⟩; exact ⟨(h, v), (mem_all_iff mi a wf h v).mpr hv, rfl⟩
+
+/-- **Len is the number of distinct members**: `Keys` is a duplicate-free list of exactly the
+    members and `Len` is its length -/
+theorem len_eq_card (mi : MasterIndex) (a : ASet) (wf : WF a) :
+    a.len mi = (a.keys mi).length ∧ (a.keys mi).Nodup ∧ ∀ h, h ∈ a.keys mi ↔ a.has mi h = true :=
+  ⟨by simp [ASet.len, ASet.keys], keys_nodup mi a wf, mem_keys_iff mi a wf⟩
+
 end Restic.Props.C48
